@@ -114,6 +114,7 @@ class Ctx:
             return False, "\n".join(bad)
         self.obligations.append(("source scan (sorry/admit/axiom/native_decide/…)", True, ""))
         audit = os.path.join(LEAN, "Rie", "Audit", f"{module}.lean")
+        os.makedirs(os.path.dirname(audit), exist_ok=True)
         with open(audit, "w") as f:
             f.write(f"import Rie.AuditCmd\nimport Rie.Props.{module}\n#audit_props Rie.Props.{module}\n")
         with Lock("lake"):
